@@ -189,6 +189,7 @@ type Exec struct {
 	newWorkModels []map[string]uint64
 	cacheHits     int
 	curKind       string
+	pkgInit       map[*ssa.Package]bool
 	symmetryPruned int
 	solver2       *Solver
 	crossBudget   *int
